@@ -190,13 +190,21 @@ def run_scenario(args):
         flat_keys = set(C.act_key(C.act_tokens(sc, a)) for a in acts)
         for v in vecs:
             try:
-                arg = list(v) if rng.random() < 0.5 else np.array(v)
+                # every representation that is a member of the MultiDiscrete space
+                form = rng.randrange(8)
+                arg = (list(v) if form < 2 else tuple(v) if form == 2 else np.array(v) if form == 3 else
+                       np.array(v, dtype=[np.uint8, np.uint16, np.uint32, np.int32][form - 4]))
+                if isinstance(arg, np.ndarray) and not envV.action_space.contains(arg):
+                    arg = np.array(v)
                 a = envV.action_space.get_action(arg)
                 tk = C.act_tokens(sc, a)
                 if not isinstance(a, NoOp) and C.act_key(tk) not in flat_keys:
                     probs.append(("C11", f"vector {v} decodes to an action outside the flat set"))
             except Exception as e:
                 tk = ["exception", type(e).__name__]
+                probs.append(("C10", f"a member of the parameterised action space ({type(arg).__name__}"
+                                     f"{'/' + str(arg.dtype) if isinstance(arg, np.ndarray) else ''} {list(v)}) "
+                                     f"is rejected: {type(e).__name__}"))
             add("PARAM " + " ".join(map(str, v)), tk, "C11", f"decoding of parameter vector {v}")
             res["params"] += 1
         # MASK along a random walk
@@ -240,7 +248,11 @@ def run_scenario(args):
     except C.Untranslatable as e:
         res["error"] = f"untranslatable: {e}"
     except Exception as e:
-        res["error"] = "".join(traceback.format_exception(type(e), e, e.__traceback__))[-3000:]
+        if C.raised_by_implementation(e):
+            res["findings"].append(C.impl_exception_finding(e, "layout / action-space suite",
+                                                            dict(scenario_kind=kind, scenario_index=idx)))
+        else:
+            res["error"] = "".join(traceback.format_exception(type(e), e, e.__traceback__))[-3000:]
     return res
 
 
